@@ -281,7 +281,11 @@ fn check(prop: &PropDef, args: &Args) -> i32 {
             samples.push(json!({"case": c.model_line(i), "src": c.src, "impl": impl_ans[i], "model": model_ans[i]}));
         }
         let pred = (prop.predicate)(c, &impl_ans[i]);
-        let mut differs = if c.tags.contains(&"unordered") {
+        let mut differs = if c.tags.contains(&"no-model") {
+            // behaviour outside the model (stated in the property's rule): only the property's own
+            // predicate is evaluated on the implementation's answer
+            false
+        } else if c.tags.contains(&"unordered") {
             run::normalize_unordered(&impl_ans[i]) != run::normalize_unordered(&model_ans[i])
         } else {
             impl_ans[i] != model_ans[i]
